@@ -41,8 +41,29 @@ def lift_chain(ifnode: ast.If, subject: str, folder: Optional[Folder] = None, mo
             continue
         if cur.orelse:
             out.append(Branch(None, cur.orelse, "else"))
+            break
+        # canonical form (core/program.py): no `else` after a branch that ends in return/raise/continue/break — the chain
+        # goes on with the following statements of the same block
+        if cur.body and isinstance(cur.body[-1], (ast.Return, ast.Raise, ast.Continue, ast.Break)):
+            sibs = _following(cur)
+            if sibs and isinstance(sibs[0], ast.If):
+                cur = sibs[0]
+                continue
+            if sibs:
+                out.append(Branch(None, sibs, "else"))
         break
     return out
+
+
+def _following(stmt):
+    p = getattr(stmt, "_parent", None)
+    for fld in ("body", "orelse", "finalbody"):
+        blk = getattr(p, fld, None)
+        if isinstance(blk, list):
+            for i, x in enumerate(blk):
+                if x is stmt:
+                    return blk[i + 1:]
+    return []
 
 
 def _fold(node, folder, mod):
